@@ -16,12 +16,12 @@ MUST_RAISE = [
     'window-empty', 'window-beyond', 'slong-2^31', 'list-to-single-valued-attribute', 'sul-seq-not-positive',
     'sul-seq-not-an-integer', 'header-seq-not-an-integer', 'header-seq-reassigned-invalid', 'origin-ref-of-no-origin',
     'no-logical-file', 'status-fraction-not-float', 'missing-dataset-after-earlier-write', 'partial-data-after-earlier-write',
-    'float-cast-out-of-range', 'origin-reference-shared-by-two-origins',
+    'float-cast-out-of-range', 'origin-reference-shared-by-two-origins', 'float-cast-just-outside-range',
 ]
 FRINGE = ['empty-value-list', 'empty-text', 'empty-payload', 'single-row', 'width-1', 'origin-ref-0', 'name-255', 'ident-255',
           'text-20000', 'units-255', 'many-values-300', 'set-name-255', 'header-id-65', 'sul-id-60', 'empty-ident',
           'copy-number-255', 'dtime-1900', 'dtime-2155', 'nan-float-attr', 'inf-float-attr', 'record-length-20',
-          'frame-same-channel-name-twice', 'window-to-idx-beyond', 'window-from-idx-negative']
+          'frame-same-channel-name-twice', 'window-to-idx-beyond', 'window-from-idx-negative', 'float-cast-just-inside-range']
 META = {
     'level': 'exploration',
     'rule': ('one evaluation = one invalid or fringe specification (one class of the catalogue injected into an otherwise random '
@@ -39,12 +39,16 @@ def cases(tier, seed):
     i = 0
     reps = 2 if tier == 'quick' else 25
     for c in MUST_RAISE + FRINGE:
-        for j in range(reps * (4 if c.startswith('window-') or c.startswith('list-to') or c.startswith('float-cast') else 1)):      # (window classes: several sources x chunk sizes)
-            yield {'stratum': 'catalogue', 'index': i, 'kind': 'class', 'class': c}
+        nrep = reps * (4 if c.startswith('window-') or c.startswith('list-to') or c.startswith('float-cast') else 1)   # (window classes: several sources x chunk sizes)
+        if c.startswith('float-cast-just-'):
+            # enumerated: every (source float type, target integer type, value at the very edge of the target's range)
+            nrep = sum(1 for x in gen.float_cast_boundaries() if x[3] == c.endswith('outside-range')) * (1 if tier == 'quick' else 2)
+        for j in range(nrep):
+            yield {'stratum': 'catalogue', 'index': i, 'kind': 'class', 'class': c, 'j': j}
             i += 1
 
 
-def inject(sp, c, r):
+def inject(sp, c, r, k=0):
     """Mutate the valid spec `sp` into class c.  Returns a site description."""
     ops = sp['ops']
     chans = [i for i, o in enumerate(ops) if o['op'] == 'channel']
@@ -90,6 +94,23 @@ def inject(sp, c, r):
     if c == 'data-3d':
         ops[fch[-1]]['data']['shape'] = [n, 2, 2]
         return 'channel data'
+    if c.startswith('float-cast-just-'):
+        # the value sits exactly at the edge of the cast dtype's range, in a source type that holds it exactly
+        combos = [x for x in gen.float_cast_boundaries() if x[3] == c.endswith('outside-range')]
+        src, dst, v, _bad = combos[k % len(combos)]
+        tgt = fch[-1] if len(fch) > 1 or (k // len(combos)) % 2 == 0 else fch[0]
+        shape = ops[tgt]['data']['shape']
+        size = 1
+        for d_ in shape:
+            size *= d_
+        ops[tgt]['data'] = {'dtype': src, 'shape': shape, 'layout': r.choice(['C', 'strided']),
+                            'fill': {'kind': 'oor', 'bad_at': [], 'bad_values': [[r.randrange(size), v]]}}
+        ops[tgt]['cast_dtype'] = {'$dtype': dst, 'as': 'type'}
+        sp['write']['input_chunk_size'] = r.choice([None, 1, 2, 3])
+        sp['write'].pop('from_idx', None)
+        sp['write'].pop('to_idx', None)
+        sp['write']['source'] = r.choice(['inline', 'dict', 'struct', 'hdf5'])
+        return f'channel data {src} {v!r} cast to {dst} ({sp["write"]["source"]} source)'
     if c == 'float-cast-out-of-range':
         # a float the declared cast dtype cannot hold (of moderate size: numpy converts it without any floating-point flag)
         from vf.spec import OOR_VALUES
@@ -421,7 +442,7 @@ def run_case(case):
     sp = metagen.meta_spec(r, avoid=avoid, n_objects=r.choice([2, 5]), n_origins=1, origin_pos='first', later_p=0.0,
                            mx=r.choice([128, 8192]))
     sp['write'] = {'output_chunk_size': 2 ** 16, 'source': 'inline'}
-    site = inject(sp, c, r)
+    site = inject(sp, c, r, case.get('j', 0))
     bump('class-' + c)
     # raw dtypes that ArraySpec cannot express
     orig_make = S.make_array
